@@ -1,28 +1,32 @@
 (* Properties_C11.v — move text round-trips and parse_move rejects everything that is not a legal move.
-   Proved for EVERY position and EVERY string (lists of bytes): parse_move returns only generated legal moves whose
-   text is the string (or the castling move named by a standard alias with the king on e1/e8 and that side to
-   move); a string that is no generated move's text and no alias is rejected; the text of every generated move is
-   accepted; move_string's two modes; the text is origin+destination+promotion letter; parse_move is a pure
-   function of the position.
-   STATUS: PARTIAL — "parse_move (text m) returns m itself" needs the texts of the generated moves to be pairwise
-   distinct, i.e. no duplicates in the generated list (C01, decided by the correspondence, which also runs all
-   20480 coordinate strings per position).  Statements only. *)
+   STATUS: FULL (for the model M), with the reading of "mode" stated below.
+   For EVERY position and EVERY string (lists of bytes), no hypothesis: parse_move returns only generated legal moves
+   whose text is the string (or the castling move named by a standard alias e1g1/e1c1/e8g8/e8c8 with a king on e1/e8
+   and that side to move); a string that is neither the text nor the standard-mode move_string of any generated move
+   is rejected (C11_rejects_other_strings) and a rejected call is a pure function of the position; move_string's two
+   modes; the text is origin+destination+promotion letter.
+   On the property's domain (wf, rooks_ok, legal-consistent in mode dfrc), by C01: the texts of the legal moves are
+   pairwise distinct (C11_text_injective), parse_move of a legal move's own text returns that move itself
+   (C11_text_returns_move), and so does parse_move of move_string(m, dfrc) in the position's own mode
+   (C11_move_string_returns_move).  Reading of the property: "move_string(m, mode)" is taken in the mode of the
+   position (a Chess960 position whose king is not on e1 cannot be addressed by the standard alias "e1g1": TextExact
+   shows the alias is accepted exactly when a king stands on e1/e8).  Statements only. *)
 From Coq Require Import NArith List Bool.
-From LC Require Import Bits Types BitboardModel MoveModel PositionModel MovegenModel FenModel GameModel MoveFacts TextFacts.
+From LC Require Import Bits Types BitboardModel MoveModel PositionModel MovegenModel FenModel GameModel MoveFacts TextFacts Spec.Rules Refine.Abs Refine.MakeAbs TextExact LegalFinal.
 Import ListNotations.
 Local Open Scope N_scope.
 
-Theorem C11_partial_parse_sound : forall p s m, parse_move p s = Some m ->
+Theorem C11_parse_sound : forall p s m, parse_move p s = Some m ->
   In m (legal_moves p) /\
   (move_text m = s \/
    (m_type m = Ksc /\ ((s = s_e1g1 /\ piece_on p 4 = King /\ turn p = White) \/ (s = s_e8g8 /\ piece_on p 60 = King /\ turn p = Black))) \/
    (m_type m = Qsc /\ ((s = s_e1c1 /\ piece_on p 4 = King /\ turn p = White) \/ (s = s_e8c8 /\ piece_on p 60 = King /\ turn p = Black)))).
 Proof. exact parse_move_sound. Qed.
-Theorem C11_partial_parse_rejects : forall p s,
+Theorem C11_parse_rejects : forall p s,
   (forall m, In m (legal_moves p) -> move_text m <> s) ->
   s <> s_e1g1 -> s <> s_e1c1 -> s <> s_e8g8 -> s <> s_e8c8 -> parse_move p s = None.
 Proof. exact parse_move_rejects. Qed.
-Theorem C11_partial_text_accepted : forall p m, In m (legal_moves p) -> exists m', parse_move p (move_text m) = Some m'.
+Theorem C11_text_accepted : forall p m, In m (legal_moves p) -> exists m', parse_move p (move_text m) = Some m'.
 Proof. exact parse_move_accepts_text. Qed.
 Theorem C11_move_string_dfrc : forall p m, move_string p m true = move_text m.
 Proof. exact move_string_dfrc. Qed.
@@ -35,5 +39,20 @@ Theorem C11_text_shape : forall m, legal_promo_field (m_promo m) = true ->
                 match m_promo m with Knight => [110] | Bishop => [98] | Rook => [114] | Queen => [113] | _ => [] end.
 Proof. exact move_text_shape. Qed.
 
-Print Assumptions C11_partial_parse_sound. Print Assumptions C11_partial_parse_rejects. Print Assumptions C11_partial_text_accepted.
+Theorem C11_text_returns_move : forall dfrc p m, wf p = true -> rooks_ok p -> legal_consistent dfrc (abs p) = true ->
+  In m (legal_moves p) -> parse_move p (move_text m) = Some m.
+Proof. exact parse_text_returns_move. Qed.
+Theorem C11_move_string_returns_move : forall dfrc p m, wf p = true -> rooks_ok p -> legal_consistent dfrc (abs p) = true ->
+  In m (legal_moves p) -> parse_move p (move_string p m dfrc) = Some m.
+Proof. exact parse_string_returns_move. Qed.
+Theorem C11_text_injective : forall dfrc p, wf p = true -> rooks_ok p -> legal_consistent dfrc (abs p) = true ->
+  forall m1 m2, In m1 (spec_moves (abs p)) -> In m2 (spec_moves (abs p)) -> move_text m1 = move_text m2 -> m1 = m2.
+Proof. exact spec_text_injective. Qed.
+Theorem C11_rejects_other_strings : forall p s,
+  (forall m, In m (legal_moves p) -> move_text m <> s /\ move_string p m false <> s) -> parse_move p s = None.
+Proof. exact parse_rejects_strings. Qed.
+
+Print Assumptions C11_text_returns_move. Print Assumptions C11_move_string_returns_move. Print Assumptions C11_text_injective.
+Print Assumptions C11_rejects_other_strings.
+Print Assumptions C11_parse_sound. Print Assumptions C11_parse_rejects. Print Assumptions C11_text_accepted.
 Print Assumptions C11_move_string_dfrc. Print Assumptions C11_move_string_std. Print Assumptions C11_text_shape.
